@@ -377,7 +377,7 @@ def main():
         fh.write("\n".join(rows) + "\n")
     cases, srcs, sstats, nt1 = struct_cases(rnd, n_struct)
     files = []
-    CH = 400
+    CH = 100
     for i in range(0, len(cases), CH):
         path = os.path.join(os.getcwd(), "Cases_C16_%03d.v" % (i // CH))
         with open(path, "w") as fh:
